@@ -362,6 +362,18 @@ def rule_cond(ctx):
                'a non-numeric yield must not be rescheduled', h.node, h.module)
 
 
+def rule_stop_quiet(ctx):
+    ctx.rule('C11.fsm', 'Routine.stop records the stop without running the body: it only drops the iterator (no close/throw/send/next on it), '
+                        'so no user code can raise out of stop() or yield again and leave the routine suspended with a live iterator')
+    f = ctx.repo.func('sc3.base.stream:Routine.stop')
+    runs = [norm(c)[:50] for c in U.calls(f.node) if (isinstance(c.func, ast.Attribute) and 'self._iterator' in norm(c.func.value)
+                                                       and c.func.attr in ('close', 'throw', 'send', '__next__'))
+            or (norm(c.func) == 'next' and c.args and 'self._iterator' in norm(c.args[0]))]
+    ctx.ob('C11.fsm', f'{f.fq}:runs-no-body-code', not runs,
+           f'stop() calls {runs} on the suspended generator: GeneratorExit is thrown into user code before the state is Done; a body that '
+           f'swallows it or raises in a finally makes stop() raise and the routine stays suspended', f.node, f.module)
+
+
 def run(ctx):
     from ..report import SubCtx
     from . import c05
@@ -397,6 +409,7 @@ def run(ctx):
            f'only {removers} touch Condition._waiting_threads: a routine stopped/reset (or paused and resumed) while hung stays '
            f'registered, and a later signal() re-schedules it although it now waits for something else', cnd.node, cnd.module)
     rule_fsm(ctx)
+    rule_stop_quiet(ctx)
     rule_own(ctx)
     rule_restore(ctx)
     rule_cond(ctx)
@@ -404,6 +417,9 @@ def run(ctx):
 
 
 MUTANTS = [
+    dict(rule='C11.fsm', name='stop closes the generator before it records the stop (seed C11-m)', file='sc3/base/stream.py',
+         old="            else:\n                self._iterator = None\n                self._last_value = None\n                self._clock = clk.SystemClock  # Default clock.\n                self.state = self.State.Done\n",
+         new="            else:\n                if self._iterator is not None:\n                    self._iterator.close()\n                self._iterator = None\n                self._last_value = None\n                self._clock = clk.SystemClock  # Default clock.\n                self.state = self.State.Done\n"),
     dict(rule='C11.cond', name='thread_player stops at the immediate parent (seed C11-e)', file='sc3/base/stream.py',
          old="                return self.parent.thread_player", new="                return self.parent._thread_player or self.parent"),
     dict(rule='C11.cond', name='Condition caches the value of a callable test', file='sc3/base/stream.py',
